@@ -273,17 +273,18 @@ fn build(l: &Limits, seed: u64) -> (Vec<Spec>, Vec<Session>) {
     );
 
     // low entropy: zeros (identical maximum-size chunks), a short period, two symbols
-    let mut low = vec![0u8; l.xorb_bytes * 3 / 2 + 4321];
-    low.extend((0..l.xorb_bytes / 2).map(|i| (i % 97) as u8));
-    low.extend((0..l.xorb_bytes / 2).map(|_| rng.random::<u8>() & 1));
+    let xb = l.xorb_bytes.min(l.xorb_chunks * l.target); // bytes after which a xorb of average chunks is cut
+    let mut low = vec![0u8; xb * 3 / 2 + 4321];
+    low.extend((0..xb / 2).map(|i| (i % 97) as u8));
+    low.extend((0..xb / 2).map(|_| rng.random::<u8>() & 1));
     let f_low = add("low-entropy", "zeros, then period-97 bytes, then two-symbol noise", low);
 
     // byte-level self-repeat, not aligned to chunks
-    let mut r = vec![0u8; l.xorb_bytes * 6 / 5];
+    let mut r = vec![0u8; xb * 6 / 5];
     rng.fill(&mut r[..]);
     let mut un = r.clone();
-    un.extend_from_slice(&r[12_345 % r.len()..12_345 % r.len() + l.xorb_bytes * 3 / 5]);
-    un.extend_from_slice(&r[..l.xorb_bytes / 3]);
+    un.extend_from_slice(&r[12_345..12_345 + xb * 3 / 5]);
+    un.extend_from_slice(&r[..xb / 3]);
     let f_unaligned = add("unaligned-repeat", "random R, then R[12345 .. +0.6 xorb], then R[.. 0.33 xorb]", un);
 
     // second session: recombination of first-session content
